@@ -62,7 +62,7 @@ def conic(vc):
 
 
 @obligation("C14", "conic_rot", ensures=["O-C14-conic.rot-vertical"], fns=[FOV + "ConicFoV.inFieldOfView"], mode="R",
-            note="component-wise: both directions rotated about the local vertical (SEZ z axis) by any angle")
+            note="component-wise: both directions rotated about the local vertical (SEZ z axis) by any angle; full 6x1 states whose velocity parts are arbitrary and unrelated")
 def conic_rot(vc):
     p = vc.vec("p", 3, -1e5, 1e5)
     b = vc.vec("b", 3, -1e5, 1e5)
@@ -77,11 +77,13 @@ def conic_rot(vc):
     cone = vc.real("cone", 0.0, 3.0)
     rot = lambda v: np.array([c * v[0] + s * v[1], -s * v[0] + c * v[1], v[2]], dtype=object if vc.symbolic else float)
     fov = vc.new(FOV + "ConicFoV", _cone_angle=cone)
-    pad = lambda v: np.concatenate([v, np.zeros(3)])
+    # the 6x1 slant-range states the sensor hands over carry velocities; membership is a function of the two DIRECTIONS only, so the four velocity parts are unrelated
+    vels = [vc.vec(f"vel{k}", 3, -1e5, 1e5) for k in range(4)]
+    pad = lambda v, k: np.concatenate([v, vels[k]])
     if not vc.symbolic:  # stay off the rounding band of the boundary
         ang = np.arccos(np.clip(np.dot(p, b) / np.linalg.norm(p) / np.linalg.norm(b), -1, 1))
         vc.assume(abs(ang - cone / 2) > 1e-7)
-    vc.ensure("O-C14-conic.rot-vertical", vc.iff(fov.inFieldOfView(pad(p), pad(b)), fov.inFieldOfView(pad(rot(p)), pad(rot(b)))))
+    vc.ensure("O-C14-conic.rot-vertical", vc.iff(fov.inFieldOfView(pad(p, 0), pad(b, 1)), fov.inFieldOfView(pad(rot(p), 2), pad(rot(b), 3))))
 
 
 def _circ_dist(vc, a, b):
@@ -370,6 +372,42 @@ def sunfrac(vc):
             lens = quad(chord, lo, hi, epsabs=1e-13, epsrel=1e-10, limit=400, points=[min(max((c * c + a * a - b * b) / (2 * c), lo), hi)])[0] if hi > lo else 0.0
             ok = abs(frac - (1 - lens / (np.pi * a * a))) < 1e-5 and -1e-9 <= frac <= 1 + 1e-9
         vc.ensure("O-C14-sunfrac.partial", ok)
+
+
+SAE = "resonaate.data.events.sensor_addition:"
+
+
+@obligation("C14", "event_masks_bounded", ensures=["B-C14-event-masks.order", "B-C14-event-masks.built"],
+            fns=[SAE + "SensorAdditionEvent.fromConfig", SAE + "SensorAdditionEvent.handleEvent", "resonaate.sensors:sensorFactory"], mode="Z", native_only=True, samples=8,
+            bounded="BOUNDED stand-in, not a proof (pydantic models and the ORM constructor are outside the extracted subset): sampled azimuth masks (about half of them through north, lo > hi), "
+                    "elevation masks, optical sensor on a spacecraft",
+            note="a sensor added DURING a run gets the masks it was configured with: the (lo, hi) ORDER of the azimuth mask - the only thing that encodes a mask through north - survives "
+                 "configuration -> event row -> handler -> sensor specification -> sensorFactory, and the built sensor's masks are the configured ones in radians, in that order (what the masks then admit is O-C14-mask.*)")
+def event_masks_bounded(vc):
+    import datetime
+    from resonaate.scenario.config.event_configs import SensorAdditionEventConfig
+    from resonaate.scenario.config.agent_config import SensingAgentConfig
+    from resonaate.data.events.sensor_addition import SensorAdditionEvent
+    from resonaate.data.agent import AgentModel
+    from resonaate.sensors import sensorFactory
+    az = [vc.real("az_lo", 0, 359), vc.real("az_hi", 0, 359)]
+    el = sorted([vc.real("el_a", 0, 89), vc.real("el_b", 0, 89)])
+    vc.assume(abs(az[0] - az[1]) > 1 and el[1] - el[0] > 1)
+    rad = vc.real("orbit_radius", 6800, 42000)
+    sensor = dict(type="optical", azimuth_range=list(az), elevation_range=list(el), aperture_diameter=1.0, efficiency=0.9, slew_rate=2.0, covariance=[[1e-8, 0], [0, 1e-8]],
+                  field_of_view=dict(fov_shape="conic", cone_angle=3.0), background_observations=False)
+    cfg = SensorAdditionEventConfig(scope="scenario_step", scope_instance_id=0, start_time=datetime.datetime(2021, 3, 30, 16, 5), event_type="sensor_addition", tasking_engine_id=1,
+                                    sensor_agent=dict(id=60001, name="s", platform=dict(type="spacecraft"), sensor=sensor,
+                                                      state=dict(type="eci", position=[rad, 0.0, 0.0], velocity=[0.0, (398600.4418 / rad) ** 0.5, 0.0])))
+    ev = SensorAdditionEvent.fromConfig(cfg)
+    ev.agent = AgentModel(unique_id=60001, name="s")
+    got = {}
+    ev.handleEvent(_NS(addSensor=lambda spec_, eid: got.update(spec=spec_)))
+    c = SensingAgentConfig(**got["spec"])
+    vc.ensure("B-C14-event-masks.order", list(c.sensor.azimuth_range) == az and list(c.sensor.elevation_range) == el)
+    built = sensorFactory(c.sensor)
+    ok = bool(np.allclose(built.az_mask, np.radians(az), rtol=0, atol=1e-12) and np.allclose(built.el_mask, np.radians(el), rtol=0, atol=1e-12))
+    vc.ensure("B-C14-event-masks.built", ok)
 
 
 # the limb / lighting / exclusion predicates above are proved as functions; that the optical sensor calls them with the SENSOR's state, the line of sight and the
